@@ -5,9 +5,11 @@ HERE="$(cd "$(dirname "$0")" && pwd)"
 OUT="$1"; VAR="${2:-plain}"; REPO="${3:-/repo}"
 "$HERE/build_impl.sh" "$OUT" "$VAR" "$REPO"
 CF="-g -O1 -w -I$REPO/src"
-EXTRA=""
+EXTRA=""; LD=""
 case "$VAR" in
   asan) CF="$CF -fsanitize=address,undefined -fno-sanitize-recover=undefined" ;;
   fault) CF="$CF -fsanitize=address,undefined -fno-sanitize-recover=undefined"; EXTRA="$HERE/fault_alloc.c" ;;
+  cov) LD="--coverage" ;;
+  covfault) EXTRA="$HERE/fault_alloc.c"; LD="--coverage" ;;
 esac
-gcc $CF -o "$OUT/impl_$VAR" "$HERE/impl_driver.c" $EXTRA "$OUT/libconfuse_$VAR.a"
+gcc $CF -o "$OUT/impl_$VAR" "$HERE/impl_driver.c" $EXTRA "$OUT/libconfuse_$VAR.a" $LD
